@@ -1,6 +1,7 @@
 package mon
 
 import (
+	"fmt"
 	"math/rand"
 	"sync"
 
@@ -227,21 +228,27 @@ func init() {
 	fw.Register(&fw.Monitor{
 		ID:          "C08",
 		Level:       "exploration",
-		Technique:   "runtime model-based monitor: random push / illegal push / take-back / fork sequences on several boards, each operation checked against recorded snapshots and a from-scratch rebuild",
-		Rule:        "one evaluation = one snapshot comparison (after take-back vs before the matching push; other boards unchanged after an operation; line rebuilt from scratch); operations drawn at random over up to 4 forked boards with nesting depth up to 300; distinct = distinct operation sessions",
+		Technique:   "runtime model-based monitor: random push / illegal push / take-back / fork sequences on several boards, each operation checked against recorded snapshots and a from-scratch rebuild; read-only API calls interleaved; forks driven from separate goroutines under the race detector",
+		Rule:        "one evaluation = one snapshot comparison (after take-back vs before the matching push; other boards unchanged after an operation; line rebuilt from scratch); operations drawn at random over up to 4 forked boards with nesting depth up to 300; in half of the sessions the read-only board/position API (check, mate, legal moves, attack queries, last move, has-moved ...) is called between operations and must change nothing; concurrent: a board and 1-3 forks of it each run their own pre-drawn push/take-back script in their own goroutine (race build), every snapshot compared with the same script run alone on a board set up from scratch; distinct = distinct operation sessions",
 		Assumptions: []string{"forks are used within their documented contract: neither side takes back below the fork point", "Outcome Unknown and Undecided are the same observation (not decided)"},
 		Setup:       validateOracle,
 		Timeout:     minutes(10, 90),
 		Cases: func(tier string, seed int64) []fw.Case {
 			l := mkCases(nil, "ops", 64, seed, pick(tier, 100, 10000))
+			l = mkCases(l, "concurrent", 8, seed, pick(tier, 40, 2000))
 			return mkCases(l, "deepwalk", 8, seed, pick(tier, 1, 6))
 		},
 		Floors: func(string) map[string]int64 {
 			return map[string]int64{"pops": 5000, "forks": 200, "pop_castle": 10, "pop_ep": 1, "pop_promotion": 10, "pop_capture": 500, "scratch_compares": 1000, "illegal_pushes": 200, "pop_at_root": 10, "deepwalk_pushes": 100000,
-				"ev_repetition_first_after_fork": 5}
+				"ev_repetition_first_after_fork": 5, "query_rounds": 20000, "concurrent_sessions": 100, "concurrent_ops": 10000}
 		},
+		RaceKinds: map[string]bool{"concurrent": true},
 		Run: func(c *fw.Ctx, cs fw.Case) {
 			r := cs.Rand()
+			if cs.Kind == "concurrent" {
+				concurrentForks(c, r, cs.N)
+				return
+			}
 			if cs.Kind == "deepwalk" {
 				// a long-lived board: a search-like walk of a whole subtree by play and take-back on ONE
 				// board (10^4..2*10^5 distinct positions), then an ordinary session continues on it
@@ -293,6 +300,111 @@ func init() {
 			}
 		},
 	})
+}
+
+type forkOp struct {
+	pop bool
+	m   ref.Move
+}
+
+// concurrentForks: a board and its forks are used from different goroutines at the same time (the
+// documented use of a fork); each must behave exactly as if it were alone.
+func concurrentForks(c *fw.Ctx, r *rand.Rand, n int) {
+	for i := 0; i < n; i++ {
+		start, bias, _ := gameStart(r, i)
+		h := gen.Playout(r, start, r.Intn(30), bias)
+		build := func() *board.Board {
+			b, err := adapt.Board(zt0, h.Start)
+			if err != nil {
+				return nil
+			}
+			for _, m := range h.Moves {
+				if !adapt.Push(b, m) {
+					return nil
+				}
+			}
+			return b
+		}
+		b0 := build()
+		if b0 == nil {
+			continue
+		}
+		boards := []*board.Board{b0}
+		for k := 1 + r.Intn(3); k > 0; k-- {
+			boards = append(boards, boards[r.Intn(len(boards))].Fork())
+		}
+		// one script per board, drawn from the rules (never below the fork point)
+		scripts := make([][]forkOp, len(boards))
+		for j := range boards {
+			g := ref.NewGameFrom(h.Start, h.Moves)
+			base := len(g.Moves)
+			for k := 20 + r.Intn(80); k > 0; k-- {
+				ms := g.Cur.LegalMoves()
+				if len(g.Moves) > base && (len(ms) == 0 || r.Intn(3) == 0) {
+					g.Pop()
+					scripts[j] = append(scripts[j], forkOp{pop: true})
+					continue
+				}
+				if len(ms) == 0 {
+					break
+				}
+				var prev *ref.Move
+				if n := len(g.Moves); n >= 2 {
+					prev = &g.Moves[n-2]
+				}
+				m := gen.Pick(r, &g.Cur, ms, gen.Shuffly, prev)
+				g.Push(m)
+				scripts[j] = append(scripts[j], forkOp{m: m})
+			}
+		}
+		run := func(b *board.Board, script []forkOp) ([]adapt.Snap, string) {
+			var out []adapt.Snap
+			for _, op := range script {
+				if op.pop {
+					if _, ok := b.PopMove(); !ok {
+						return out, "take-back refused"
+					}
+				} else if !adapt.Push(b, op.m) {
+					return out, "legal move " + op.m.String() + " refused"
+				}
+				out = append(out, adapt.TakeSnap(b))
+			}
+			return out, ""
+		}
+		got := make([][]adapt.Snap, len(boards))
+		errs := make([]string, len(boards))
+		var wg sync.WaitGroup
+		for j := range boards {
+			wg.Add(1)
+			go func(j int) {
+				defer wg.Done()
+				got[j], errs[j] = run(boards[j], scripts[j])
+			}(j)
+		}
+		wg.Wait()
+		c.Count("concurrent_sessions", 1)
+		c.Distinct(fmt.Sprint(h.Start.FEN(), h.MoveStrs(), len(boards), len(scripts[0])))
+		for j := range boards {
+			alone := build()
+			want, werr := run(alone, scripts[j])
+			c.Eval(1)
+			c.Count("concurrent_ops", len(scripts[j]))
+			what := fmt.Sprintf("board %d of %d (0 = original) after history %q %v", j, len(boards), h.Start.FEN(), h.MoveStrs())
+			if errs[j] != werr {
+				c.Violate("concurrent:refused", "%s: %q when run beside the others, %q when run alone", what, errs[j], werr)
+				continue
+			}
+			for k := range want {
+				if k >= len(got[j]) {
+					break
+				}
+				if d := got[j][k].Diff(want[k]); d != "" {
+					c.Violate("concurrent:differs", "%s: after operation %d the board run beside the others differs from the same script run alone: %s", what, k, d)
+					break
+				}
+			}
+		}
+	}
 }
 
 // deepWalk plays and takes back every line of the given depth on the board (like a search does).
